@@ -27,11 +27,31 @@ class KInst:
                     D=None if self.X is not None else [list(map(float, r)) for r in self.D])
 
 
-def gen_kinst(rng, nmin=2, nmax=10, m=0, labelled=False, kinds=("feat", "lattice", "dup", "mat", "jitter", "outlier")):
+def gen_kinst(rng, nmin=2, nmax=10, m=0, labelled=False, kinds=("feat", "lattice", "dup", "mat", "jitter", "outlier", "micro")):
     kind = rng.choice(kinds)
     n = rng.randint(nmin, nmax)
     N = n + m
     labels = gen_labels(rng, n, 3) if labelled and n >= 2 else None
+    if kind == "micro" and n >= 4:
+        # a few samples 1e-22 .. 1e-30 apart (close, not duplicates) next to ordinary samples about 1 apart: arc weights, cuts
+        # and density terms that are positive but far below EPSILON = 1e-20
+        metric = rng.choice(["euclidean", "manhattan", "chebyshev"])
+        dim = rng.randint(1, 2)
+        sc = 10.0 ** rng.choice([-22, -25, -30])
+        nm = rng.randint(2, min(3, n - 2))
+        X = [[sc * rng.choice([0, 1, 3, 7]) if t == 0 else 0.0 for t in range(dim)] for _ in range(nm)]
+        if len({tuple(r) for r in X}) < nm:
+            X = [[sc * j if t == 0 else 0.0 for t in range(dim)] for j in range(nm)]
+        if rng.random() < 0.6:
+            # the ordinary samples form one tight group about 1 away (their nearest neighbours are each other)
+            X += [[1.0 + rng.uniform(0, 0.08) if t == 0 else rng.uniform(0, 0.08) for t in range(dim)] for j in range(n - nm)]
+        else:
+            X += [[1.0 + 0.9 * j + rng.uniform(0, 0.05) if t == 0 else rng.uniform(0, 0.05) for t in range(dim)] for j in range(n - nm)]
+        order = list(range(n)); rng.shuffle(order)
+        X = [X[j] for j in order] + [[rng.choice([0.0, sc, 1.0, 2.5]) if t == 0 else 0.0 for t in range(dim)] for _ in range(m)]
+        D = metric_matrix(metric, X)
+        if all(v == v for r in D for v in r):
+            return KInst("micro", X, D, n, m, metric, labels)
     if kind == "mat":
         k = rng.choice([1, 2, 3, 0])
         alphabet = [float(v) for v in rng.sample(range(1, 9), k)] if k else None
